@@ -22,16 +22,20 @@ F(i, o, once, fails) == [in |-> i, out |-> o, form |-> "struct", hasErr |-> TRUE
 Targets == << F(<<L("", "T1", "")>>, <<>>, FALSE, FALSE),
               F(<<L("", "T2", "")>>, <<>>, FALSE, FALSE),
               F(<<L("a", "T5", ""), L("", "T2", "")>>, <<>>, FALSE, FALSE),
-              F(<<L("", "T2", ""), L("", "T3", "")>>, <<L("", "T6", "")>>, TRUE, FALSE) >>   \* a run-once TARGET (unique signature)
-Inputs == << L("", "T3", ""), L("", "T4", ""), L("a", "T5", "") >>
+              F(<<L("", "T2", ""), L("", "T3", "")>>, <<L("", "T6", "")>>, TRUE, FALSE),     \* a run-once TARGET (unique signature)
+              \* a second run-once target: its parameter can be supplied directly (input 4) or derived through c1, c2 - a call
+              \* that succeeded (and was memoized) can be followed by one whose converter fails or whose input is missing
+              F(<<L("", "T1", "")>>, <<L("b", "T6", "")>>, TRUE, FALSE) >>
+Inputs == << L("", "T3", ""), L("", "T4", ""), L("a", "T5", ""), L("", "T1", "") >>
 Pools == { << F(<<L("", "T3", "")>>, <<L("", "T2", "")>>, TRUE, FALSE),                       \* c1: T3 -> T2, run once
               F(<<L("", "T2", "")>>, <<L("", "T1", "")>>, o2, f2),                            \* c2: T2 -> T1
               F(<<L("", "T2", ""), L("", "T4", "")>>, <<L("a", "T5", "")>>, TRUE, FALSE) >>   \* c3: (T2,T4) -> a:T5, run once
            : o2 \in BOOLEAN, f2 \in BOOLEAN }
 
-InputSets == IF Small THEN {<<>>, <<1>>, <<1, 2>>} ELSE {<<>>, <<1>>, <<1, 2>>, <<2>>, <<1, 3>>}
+InputSets == IF Small THEN {<<>>, <<1>>, <<1, 2>>, <<4>>} ELSE {<<>>, <<1>>, <<1, 2>>, <<2>>, <<1, 3>>, <<4>>}
+TargetIds == IF Small THEN {1, 3, 4, 5} ELSE 1..5
 Steps == { [op |-> o, target |-> t, inputs |-> i, hasFilter |-> FALSE, filterIn |-> <<>>, filterOut |-> "none", followUp |-> FALSE] :
-             o \in {"call", "redefine"}, t \in 1..4, i \in InputSets }
+             o \in {"call", "redefine"}, t \in TargetIds, i \in InputSets }
          \cup { x \in { [op |-> "redefine", target |-> t, inputs |-> i, hasFilter |-> TRUE, filterIn |-> <<"T3", "T4">>, filterOut |-> "none", followUp |-> FALSE] :
                   t \in 1..3, i \in {<<>>, <<2>>} } : ~Small }
          \cup { [op |-> "convert", target |-> t, inputs |-> i, hasFilter |-> FALSE, filterIn |-> <<>>, filterOut |-> "none", followUp |-> FALSE] :
